@@ -173,6 +173,9 @@ func (fv *FV) callFunc(st *State, call *ast.CallExpr, callee *types.Func, sel *a
 	if rs, ok := fv.applyModel(st, call, callee, sel); ok {
 		return rs
 	}
+	if rs, ok := fv.constDispatch(st, call, callee, sel); ok {
+		return rs
+	}
 	if fv.isDropped(callee) {
 		for _, a := range call.Args {
 			fv.evalExprLoose(st, a)
@@ -196,6 +199,9 @@ func (fv *FV) callFunc(st *State, call *ast.CallExpr, callee *types.Func, sel *a
 func (fv *FV) applyContract(st *State, call *ast.CallExpr, fc *FuncContract, sel *ast.SelectorExpr, sig *types.Signature) []Term {
 	pre := map[string]Term{}
 	paths := map[string]*Path{}
+	// The receiver is read AFTER the arguments have been evaluated when it is a location (m.repay(pop(m)): the callee
+	// sees the pointee as the argument evaluation left it; pointers are modelled as the value they point to).
+	evalRecv := func() {
 	if sel != nil && fv.info.Selections[sel] != nil && fc.RecvName != "" && fc.RecvName != "_" {
 		rsel := fv.info.Selections[sel]
 		var rv Term
@@ -241,6 +247,11 @@ func (fv *FV) applyContract(st *State, call *ast.CallExpr, fc *FuncContract, sel
 			paths[fc.RecvName] = rp
 		}
 	}
+	}
+	recvIsPath := sel != nil && fv.info.Selections[sel] != nil && fv.isPathExpr(sel.X)
+	if !recvIsPath {
+		evalRecv()
+	}
 	for i, a := range call.Args {
 		if i >= len(fc.Params) {
 			break
@@ -252,6 +263,9 @@ func (fv *FV) applyContract(st *State, call *ast.CallExpr, fc *FuncContract, sel
 		}
 	}
 	args := fv.evalArgs(st, call, sig)
+	if recvIsPath {
+		evalRecv()
+	}
 	if sig.Variadic() && !call.Ellipsis.IsValid() {
 		// pack variadic arguments into a slice
 		np := sig.Params().Len()
@@ -591,4 +605,78 @@ func sizeOf(b *types.Basic) int {
 		return 4
 	}
 	return 8
+}
+
+
+// constDispatch: a call of an interface method on a closed-sum interface value where every implementing type declares
+// the method as `return <constant>` (e.g. Value.GetType) is the case distinction over the dynamic type. The bodies are
+// read from the loaded source on every run; an implementation of any other shape makes this model inapplicable.
+func (fv *FV) constDispatch(st *State, call *ast.CallExpr, callee *types.Func, sel *ast.SelectorExpr) ([]Term, bool) {
+	if sel == nil || len(call.Args) != 0 {
+		return nil, false
+	}
+	rsel := fv.info.Selections[sel]
+	if rsel == nil {
+		return nil, false
+	}
+	rt := rsel.Recv()
+	if _, isIface := rt.Underlying().(*types.Interface); !isIface {
+		return nil, false
+	}
+	so := fv.ss.Of(rt)
+	if so.Kind != KSum || len(so.Ctors) == 0 {
+		return nil, false
+	}
+	rss, _ := fv.resultSorts(call)
+	if len(rss) != 1 {
+		return nil, false
+	}
+	var consts []Term
+	for _, c := range so.Ctors {
+		ms := types.NewMethodSet(c.GoType)
+		m := ms.Lookup(callee.Pkg(), callee.Name())
+		if m == nil {
+			return nil, false
+		}
+		mf, ok := m.Obj().(*types.Func)
+		if !ok {
+			return nil, false
+		}
+		dp := fv.p.AllPkgs[pkgPathOf(mf)]
+		if dp == nil || dp.TypesInfo == nil {
+			return nil, false
+		}
+		var body *ast.BlockStmt
+		for _, f := range dp.Syntax {
+			for _, d := range f.Decls {
+				if fdl, ok := d.(*ast.FuncDecl); ok && dp.TypesInfo.Defs[fdl.Name] == mf.Origin() {
+					body = fdl.Body
+				}
+			}
+		}
+		if body == nil || len(body.List) != 1 {
+			return nil, false
+		}
+		ret, ok := body.List[0].(*ast.ReturnStmt)
+		if !ok || len(ret.Results) != 1 {
+			return nil, false
+		}
+		tv, ok := dp.TypesInfo.Types[ret.Results[0]]
+		if !ok || tv.Value == nil {
+			return nil, false
+		}
+		ct, ok := fv.constTerm(tv, call.Pos())
+		if !ok || ct.Sort != rss[0] {
+			return nil, false
+		}
+		consts = append(consts, ct)
+	}
+	recv := fv.bind(st, fv.evalExpr(st, sel.X), "recv")
+	fv.assert(st, "nil-deref", tNot(tEq(recv, Term{fv.ss.Zero(so), so})), call.Pos(), "method call on nil interface value")
+	res := consts[len(consts)-1]
+	for i := len(so.Ctors) - 2; i >= 0; i-- {
+		res = tIte(T(sx(so.Ctors[i].Tester, recv.S), SBool), consts[i], res)
+	}
+	fv.note("interface method " + callee.FullName() + " dispatched over the closed sum of implementations (each returns a constant)")
+	return []Term{fv.bind(st, res, callee.Name())}, true
 }
